@@ -15,7 +15,9 @@ import (
 	"time"
 
 	"github.com/foxboron/go-uefi/authenticode"
+	"github.com/foxboron/go-uefi/efi"
 	"github.com/foxboron/go-uefi/efi/attributes"
+	efs "github.com/foxboron/go-uefi/efi/fs"
 	"github.com/foxboron/go-uefi/efi/signature"
 	"github.com/foxboron/go-uefi/efivar"
 	"github.com/foxboron/go-uefi/efivarfs"
@@ -126,6 +128,12 @@ func init() {
 			result = resOf(err, m != nil)
 		case "write-variable":
 			result = resOf(store.WriteVar(v, rawValue(payload)), true)
+		case "write-variable-legacy", "write-variable-legacy-name", "write-variable-legacy-efi":
+			// the legacy package-level writers, over the filesystem installed with fs.SetFS
+			old := efs.Fs
+			efs.SetFS(rec)
+			result = resOf(legacyWrite(a["op"], v, payload), true)
+			efs.SetFS(old)
 		case "signed-update":
 			result = resOf(store.WriteSignedUpdate(v, rawValue(payload), signer, cert), true)
 		case "read-variable":
@@ -141,6 +149,23 @@ func init() {
 			err := store.GetVar(v, &pv)
 			result = resOf(err, true)
 			if err == nil && !bytes.Equal(pv.got, payload) {
+				result = "wrong-value"
+			}
+		case "read-variable-legacy":
+			// the legacy package-level reader (F31: it used to drop a failed Close of the file it read from)
+			mem := afero.NewMemMapFs()
+			afero.WriteFile(mem, "/sys/firmware/efi/efivars/db-"+canonGUIDText(*v.GUID), append(v.Attributes.Bytes(), payload...), 0o644)
+			rec = newRecFs(mem)
+			rec.kind = kind
+			if a["dep"] == "fs" {
+				rec.faultK = k
+			}
+			old := efs.Fs
+			efs.SetFS(rec)
+			_, buf, err := attributes.ReadEfivarsWithGuid(v.Name, *v.GUID)
+			efs.SetFS(old)
+			result = resOf(err, true)
+			if err == nil && (buf == nil || !bytes.Equal(buf.Bytes(), payload)) {
 				result = "wrong-value"
 			}
 		case "parse-image":
@@ -234,6 +259,18 @@ func init() {
 		}
 		return "ok", fmt.Sprintf("%s calls=%d fswrites=%d state=%s sigcalls=%d readcalls=%d", result, calls, writes, state, sfc.n, opReads)
 	}
+}
+
+// the three entry points of the legacy package-level writer for the variable v: by name and GUID, by name alone
+// (the library derives the vendor GUID), and efi.WriteEFIVariable (the library also chooses the attributes)
+func legacyWrite(op string, v efivar.Efivar, payload []byte) error {
+	switch op {
+	case "write-variable-legacy-name":
+		return attributes.WriteEfivars(v.Name, v.Attributes, payload)
+	case "write-variable-legacy-efi":
+		return efi.WriteEFIVariable(v.Name, payload)
+	}
+	return attributes.WriteEfivarsWithGuid(v.Name, v.Attributes, payload, *v.GUID)
 }
 
 func resOf(err error, have bool) string {
@@ -446,7 +483,7 @@ func c15Gen(c *Ctx) {
 	payloads := [][]byte{encodeList(tSHA256, nil, 48, [][2][]byte{{u.owners[0], u.data[0]}}), nil, randBytes(c, 100)}
 	_ = attributes.EFI_VARIABLE_APPEND_WRITE
 	for _, pl := range payloads {
-		for _, od := range [][2]string{{"sign-blob", "signer"}, {"sign-variable", "signer"}, {"write-variable", "fs"}, {"signed-update", "signer"}, {"signed-update", "fs"}, {"read-variable", "fs"}} {
+		for _, od := range [][2]string{{"sign-blob", "signer"}, {"sign-variable", "signer"}, {"write-variable", "fs"}, {"write-variable-legacy", "fs"}, {"write-variable-legacy-name", "fs"}, {"write-variable-legacy-efi", "fs"}, {"signed-update", "signer"}, {"signed-update", "fs"}, {"read-variable", "fs"}, {"read-variable-legacy", "fs"}} {
 			if c.NFailures() >= 12 {
 				return
 			}
@@ -473,7 +510,7 @@ func c15Gen(c *Ctx) {
 
 func init() {
 	register("C15", &PropDef{
-		Rule:   "operations {sign blob, sign variable, write variable, signed update, read variable, parse / hash / sign / verify image} x the dependency they use (crypto.Signer, afero.Fs/afero.File, io.ReaderAt): the calls of the fault-free run are counted and then EVERY call position k is failed in turn (exhaustive per input) with each fault kind (error; for the filesystem also a write/read count of n-1 and of 0; for the reader also a short count with io.ErrUnexpectedEOF and, once Parse has fixed the sizes, a short count with io.EOF and an empty read with io.EOF), on unsigned and on already signed images, in a worker process. Checked: the result is an error (no digest for Hash), never success or a wrong value; a failed signing leaves Bytes() and Signatures() unchanged; a failed signer writes nothing. Every (operation, input, k, kind) is non-trivial and distinct.",
+		Rule:   "operations {sign blob, sign variable, write variable, signed update, read variable, parse / hash / sign / verify image} x the dependency they use (crypto.Signer, afero.Fs/afero.File, io.ReaderAt): the calls of the fault-free run are counted and then EVERY call position k is failed in turn (exhaustive per input) with each fault kind (error; for the filesystem also a write/read count of n-1 and of 0; for the reader also a short count with io.ErrUnexpectedEOF and, once Parse has fixed the sizes, a short count with io.EOF and an empty read with io.EOF), on unsigned and on already signed images, in a worker process. Write variable is exercised through the object API (EFIFS over FSWrapper.SetFS) and through the three entry points of the legacy package-level writer (attributes.WriteEfivarsWithGuid, attributes.WriteEfivars, efi.WriteEFIVariable, filesystem installed with fs.SetFS), each at every call position (OpenFile, Write, Close) with every filesystem fault kind. Checked: the result is an error (no digest for Hash), never success or a wrong value; a failed signing leaves Bytes() and Signatures() unchanged; a failed signer writes nothing. Every (operation, input, k, kind) is non-trivial and distinct.",
 		Assume: []string{"a short count counts as a fault only on the call that moves data (Write / Read)", "during Parse an early io.EOF from the caller's reader is indistinguishable from a shorter file and is not injected there"},
 		Eval:   c15Eval, Gen: c15Gen,
 	})
